@@ -1,3 +1,3 @@
         ensures
-            r is Ok ==> final(tx).wire() == old(tx).wire().push(seq![0x40u8, 2u8, (packet_id.0 >> 8) as u8, (packet_id.0 & 0xff) as u8]), //@ C08+C01:ack_puback_writes_exactly_hdr_2_id
+            r is Ok ==> wrote_ack(old(tx).wire(), final(tx).wire(), 0x40u8, packet_id.0), //@ C08+C01:ack_puback_writes_exactly_one_acknowledgement_of_its_type_and_identifier
             r is Err ==> final(tx).wire() == old(tx).wire() && r->Err_0 is SocketClosed, //@ C08+C15:failed_ack_puback_write_appends_nothing
